@@ -392,10 +392,6 @@ class _Instrument(ast.NodeTransformer):
         self.src_nodes = src_nodes     # id(node) -> line
         self.snk_exprs = snk_exprs     # id(node) -> line
 
-    def _wrap(self, node):
-        node = self.generic_visit(node)
-        return node
-
     def visit(self, node):
         nid = id(node)
         is_src = nid in self.src_nodes
